@@ -36,6 +36,16 @@ SpellOverlap(T, i, j) == \E a \in 1..Len(T.sp[i]), b \in 1..Len(T.sp[j]) :
 NonOverlapT(E, T) == \A i, j \in Parsable(E) : i < j => ~SpellOverlap(T, i, j)
 NonOverlap(E) == NonOverlapT(E, Tables(E))
 
+\* C16 on definitions whose spellings DO overlap: the plain parser is still well defined (first matching arm in
+\* declaration order = the least index, which is what ParseSpec says); the phf-backed parser consults the map
+\* before the guard arms, so it agrees as long as no key of a later variant (that an earlier variant has not
+\* already claimed as a key) is an input an earlier variant matches through its case-insensitive guard
+KeySetT(T, i) == UNION {IF T.aci[i] THEN {T.sp[i][k], Lower(T.sp[i][k]), Upper(T.sp[i][k])} ELSE {T.sp[i][k]} : k \in 1..Len(T.sp[i])}
+PhfConsistentT(E, T) == \A i, j \in Parsable(E) : i < j =>
+                          \A key \in KeySetT(T, j) :
+                             MatchesT(T, i, key) => \E h \in Parsable(E) : h < j /\ key \in KeySetT(T, h)
+PhfConsistent(E) == PhfConsistentT(E, Tables(E))
+
 \* documented domain of EnumString: at most one default, default/disabled sane
 FromStrWF(E) == /\ Cardinality(DefaultOf(E)) <= 1
                 /\ NamesWF(E)
